@@ -20,7 +20,7 @@ PROPERTY = 'C12'
 RULE = ('Hypothesis draws binary content (random / zeros / 0xFF / alternating worst-case edges), length, ORG, START, STACK or '
         'CLEAR (STACK - ORG in every alignment from -3 to length+4, inside the display file, or far away), optional SCR loading '
         'screen, tap/pzx; or a 128K image with --7ffd, --banks subset (incl. ","), --begin/--end/--clear/--loader; and a '
-        'simulated-LOAD configuration (fast-load, accelerator, accelerate-dec-a, pause, cmio, python for small tapes, '
+        'simulated-LOAD configuration (fast-load, accelerator, accelerate-dec-a, pause, cmio, python for small tapes and fast loads - 48K and 128K, '
         'polarity, first-edge). Non-trivial: data > 256 bytes, or data overlaps the stack bytes, or a screen/bank block is '
         'present; distinct = digest of the case.')
 ASSUMPTIONS = [
@@ -336,6 +336,6 @@ def known_class(sig, case):
 
 MANIFEST_ENTRY = {
     'technique': 'round-trip property through the real CLIs (bin2tap -> tap2sna simulated LOAD) over Hypothesis-generated binaries, option combinations and load configurations',
-    'level_text': 'Each generated binary / 128K image is converted by bin2tap.main (tap and pzx; ORG/START/STACK/CLEAR in all documented combinations incl. every alignment of the stack against the data; loading screen; --7ffd/--banks/--begin/--end/--loader) and loaded by tap2sna.main under a generated simulated-LOAD configuration; the snapshot must contain every original byte (bar the documented stack bytes), PC = START, SP = STACK, the screen, each requested bank and the 0x7FFD value, and the load must stop at the start address.',
+    'level_text': 'Each generated binary / 128K image is converted by bin2tap.main (tap and pzx; ORG/START/STACK/CLEAR in all documented combinations incl. every alignment of the stack against the data; loading screen; --7ffd/--banks/--begin/--end/--loader) and loaded by tap2sna.main under a generated simulated-LOAD configuration; the snapshot must contain every original byte (bar the documented stack bytes), PC = START, SP = STACK, the screen, each requested bank and the 0x7FFD value, and the load must stop at the start address (or, without --start, hand over at START under the default stop rule). A load that burns more than 150 s of CPU is reported as non-terminating.',
     'level_note': 'Sampled: data up to 1.5 KB in the quick tier (41 KB with fast-load in thorough). Generator preconditions come from the bin2tap documentation (see assumptions).',
 }
